@@ -28,7 +28,7 @@ var snapSkip = map[string]bool{
 	"KCP.buffer": true, "KCP.output": true, "KCP.log": true,
 	"fecDecoder.codec": true, "fecDecoder.decodeCache": true, "fecDecoder.flagCache": true,
 	"autoTune.sortCache": true,
-	"segmentHeap.marks": true, "shardHeap.marks": true,
+	"segmentHeap.marks":  true, "shardHeap.marks": true,
 }
 
 func snapshotOf(v any) string {
